@@ -72,6 +72,34 @@ void roundTrip(const std::string& F, const std::string& source, const std::strin
 		}
 	}
 
+	// the same file accepted with the terrain load option (texture paths get the "Data\\" prefix): its normal form is a fixed point
+	// under that option as well, and the default save converges (real samples and API models: the inputs that carry texture paths)
+	if (source.rfind("real:", 0) == 0 || source.rfind("api:", 0) == 0) {
+		R_phase("terrain-option");
+		NifFile t;
+		if (loadNif(t, F, true) != 0) R_viol("terrain-option", vclass + "/load", source + ": accepted with default load options, rejected with isTerrain");
+		else {
+			std::string T1 = saveNif(t, true);
+			NifFile t2;
+			if (loadNif(t2, T1, true) != 0) R_viol("terrain-option", vclass + "/reload", source + ": the normal form written after a terrain load does not load again");
+			else {
+				std::string T2 = saveNif(t2, true);
+				if (T1 != T2) { FileDiff d = diffFiles(T1, T2, vclass); R_viol("terrain-option", "raw-fixed-point/" + d.site, source + ": loaded with isTerrain, rawsave(load(N)) != N; " + d.detail); }
+				std::string cur = T1, d2, d3;
+				bool okT = true;
+				for (int r = 0; r < 3 && okT; r++) {
+					NifFile c;
+					if (loadNif(c, cur, true) != 0) { R_viol("terrain-option", vclass + "/default-reload", source + fmt(": loaded with isTerrain, output of default save round %d does not load", r)); okT = false; break; }
+					cur = saveNif(c, false);
+					if (r == 1) d2 = cur;
+					if (r == 2) d3 = cur;
+				}
+				if (okT && d2 != d3) { FileDiff d = diffFiles(d2, d3, vclass); R_viol("terrain-option", "default-convergence/" + d.site, source + ": loaded with isTerrain, default save has not converged after two rounds; " + d.detail); }
+				R_stat("terrain_option_round_trips");
+			}
+		}
+	}
+
 	// the same file through an object that has held another model before: same bytes (1 case in 3)
 	if (hashStr(source) % 3 == 0) {
 		R_phase("used-object");
@@ -272,7 +300,7 @@ void run(size_t idx) {
 MonReg reg({"C01", "exploration",
 			"inputs: the 52 real sample files, float-mutated variants of them (layout preserved), typed synthesis of a populated instance of each of the 304 registered block types in each "
 			"of 14 versions (plus 22 further Fallout 3 range streams around every stream value the Sync code compares against) inside a planned file (root, holder chain to the focus, type-compatible companions; 2 seeds quick / 16 thorough), models built through the public API, and edited models (random API edit sequences incl. detached sub-graphs on real/API/synthesised models; synthesised files with reversed block order). "
-			"Every third input also passes through a NifFile object that has held another model (loaded sample, sample with an unknown block type, created model) and must be written to the same bytes as by a fresh object. "
+			"Every third input also passes through a NifFile object that has held another model (loaded sample, sample with an unknown block type, created model) and must be written to the same bytes as by a fresh object; real samples and API models are also taken through the same oracle with the terrain load option (Data\\ path prefix). "
 			"Oracle per accepted input F: N=rawsave(load(F)) loads and rawsave(load(N))==N byte for byte (diffed block by block); default save: D2==D3. Non-trivial = synthesised focus "
 			"block whose payload in N differs from a default-constructed block, or a multi-block real/API file; distinct by (version,type,payload hash).",
 			[] { return layout().total(); }, run, 60, 120.0, false, false, nullptr});
